@@ -10,7 +10,9 @@
      connect_perm (any permutation of the arguments), metadata_lists_leaves.
    Hypotheses: dict keys distinct (names_ok); for the criterion in terms of constants also nodims_sig (no array of
    interfaces: excludes exactly finding C14-connect-array-of-interfaces, refuted witness below).
-   NOT proved (validated by the differential run only): WHICH error kind is reported when several defects coexist
+   connect_error_sound: every diagnostic kind is raised only when its defect is present, and on compliant arguments
+   without arrays of interfaces only the nine listed kinds can occur.
+   NOT proved (validated by the differential run only): WHICH of several coexisting defects is reported first
    (the model follows the code's order; the run compares the kind), jschon schema validation. *)
 From Coq Require Import ZArith List Bool Permutation.
 From V.Model Require Import Bits Wiring.
@@ -262,3 +264,28 @@ Example C14_metadata_example :
   let x := (true, [(0, Iface FIn true [(1, Port FOut (Sh 3 true) (-2) [2%nat])] [])]) in
   json_ports (metadata x) = [SLeaf [PN 0; PN 1; PI 0] FIn (Sh 3 true) (-2); SLeaf [PN 0; PN 1; PI 1] FIn (Sh 3 true) (-2)].
 Proof. vm_compute. reflexivity. Qed.
+
+(* --- each diagnostic is raised only for its defect (connect_defect: one constructor per kind, stated on the members
+       of the arguments at a common path), and for compliant arguments without arrays of interfaces no other kind
+       than the nine below can come out of connect (EAssertDims is the bare `assert` on dimensions) --- *)
+Theorem C14_connect_error_sound (objs : list obj) (sigs : list sigt) (e : cerr) :
+  check_args objs = Ok sigs -> (forall x, In x sigs -> nodims_sig x = true) ->
+  connect objs = Err e ->
+  connect_defect objs sigs e /\
+  (e = EMissing \/ e = ESigPort \/ e = EWidth \/ e = EInit \/ e = ESeveral \/ e = EAssertDims \/
+   e = EConstVar \/ e = EConstDiff \/ e = EOnlyIn).
+Proof. exact (connect_error_sound objs sigs e). Qed.
+Print Assumptions C14_connect_error_sound.
+
+Example C14_connect_error_examples :
+  let x := (false, [(2, Port FOut (Sh 1 false) 0 []); (6, Port FIn (Sh 3 false) 2 [])]) in
+  let y w i := (false, [(2, Port FIn (Sh 1 false) 0 []); (6, Port FIn (Sh w false) i [])]) in
+  (* the input-only leaf 6 must agree in width and init although nothing drives it *)
+  connect [create x [PN 0]; create (y 3 2) [PN 1]] = Ok [((1%nat, [PN 2]), (0%nat, [PN 2]))] /\
+  connect [create x [PN 0]; create (y 4 2) [PN 1]] = Err EWidth /\
+  connect [create (y 3 3) [PN 1]; create x [PN 0]] = Err EInit /\
+  connect [create x [PN 0]; create x [PN 1]] = Err ESeveral /\
+  connect [create (y 3 2) [PN 0]; create (y 3 2) [PN 1]] = Err EOnlyIn /\
+  check_args [create x [PN 0]; create (y 4 2) [PN 1]] = Ok [x; y 4 2] /\
+  forallb nodims_sig [x; y 4 2] = true.
+Proof. vm_compute. repeat split. Qed.
